@@ -8,7 +8,7 @@ SPEC = dict(
     level="proof",
     technique="Coq simulation proof: RoleStore (two C34 fixed maps, u32 bitmaps over role creation indices, name check through the C35 fixed-string model) refines an abstract machine over (role key -> name, enabled) and a set of (address, role) grants, for arbitrary op sequences, with exact error codes + restart-rule theorems for Store::has_role / has_admin_role; differential correspondence on whole histories of a real zeroed+initialised Store with the LastRestartSlot sysvar served by a syscall stub, including raw byte dumps of the RoleStore; independent grant-set oracle on the Rust outputs",
     text="After any sequence of enable/disable/grant/revoke, has_role is Ok(true) exactly when the role is enabled and the (address, role) pair is in the grant set; every failing operation leaves the store bit-for-bit unchanged; stored members are exactly the addresses with at least one grant; the 33rd role and the 65th member are refused; after a cluster restart Store::has_role authorises exactly the RESTART_ADMIN holders and for every role, and the store authority is always admin.",
-    level_note="A role argument is a (SHA-256 key, name bytes) pair: the hash itself is not modelled, the abstract machine is keyed by the hash and carries the stored name, so no collision-freedom assumption is needed. Role names that are accepted but unreadable (exactly 32 bytes, interior NUL — the C35 defect) are driven too: they occupy a role slot and every later operation on them fails; that is reported under C35, the C18 statement (holds iff enabled and granted) is unaffected. disable_role of an unknown role returns Ok(()) (no-op) — allowed by the text. The restart flag is has_restarted = (cached slot != sysvar slot); update_last_restarted_slot and the authority hand-over are pub(crate) and exercised only through init. Trusted: the bitmaps crate (Bitmap<32> over u32) modelled as Z.testbit/setbit/clearbit with its debug_assert!(index < 32).",
+    level_note="A role argument is a (SHA-256 key, name bytes) pair: the hash itself is not modelled, the abstract machine is keyed by the hash and carries the stored name, so no collision-freedom assumption is needed. Role names that cannot be read back (exactly 32 bytes, interior NUL) are driven too: since fix 71aae69 they are refused at creation (before it they occupied a role slot for good, reported under C35). disable_role of an unknown role returns Ok(()) (no-op) — allowed by the text. The restart flag is has_restarted = (cached slot != sysvar slot); update_last_restarted_slot and the authority hand-over are pub(crate) and exercised only through init. Trusted: the bitmaps crate (Bitmap<32> over u32) modelled as Z.testbit/setbit/clearbit with its debug_assert!(index < 32).",
     design_ref="DESIGN.md section 6, C18",
     explanation="Modes: small dense interleavings, role capacity (36 creations), member capacity (67 grants, revoke at full), restart regimes, unreadable names; every history ends with a raw dump of all 32 role slots and 64 member slots.",
 )
